@@ -34,7 +34,7 @@ LEVEL_NOTE = ("Trusted: Lean kernel; hand-written model (per-node caches are abs
               "coherence in the real tree is checked on the dumps, not proved); compound operations (reconfigure, "
               "anneal, forests, slice search) are words of primitives chosen by oracles; pools run with parallel=False.")
 TECHNIQUE = "Lean 4 invariant proof over a state machine + invariant evaluation on real state dumps + step replay"
-LEAN_MODULES = ["CotengraVerif.Props.C04"]
+LEAN_MODULES = ["CotengraVerif.Props.C04", "CotengraVerif.Props.C04Cache"]
 THEOREMS = [
     "Cotengra.C04.tracked_init",
     "Cotengra.C04.tracked_contractPair",
@@ -45,6 +45,11 @@ THEOREMS = [
     "Cotengra.C04.tracked_determined",
     "Cotengra.C04.slice_unslice_id",
     "Cotengra.C04.maxcounter_inv",
+    "Cotengra.C04.getLegs_ok",
+    "Cotengra.C04.getInvolved_ok",
+    "Cotengra.C04.getSize_ok",
+    "Cotengra.C04.getFlops_ok",
+    "Cotengra.C04.removeInd_entry_ok",
 ]
 TRUSTED = [
     "Lean 4.33 kernel; axioms ⊆ {propext, Classical.choice, Quot.sound}",
@@ -331,8 +336,82 @@ def maxcounter_corr(ctx, drv, nseq):
             ctx.corr_broken("Lean MaxCounter and utils.MaxCounter disagree", {"ops": ops, "real": real, "model": model})
 
 
+def _subtrees(bt):
+    if isinstance(bt, int):
+        return [bt]
+    return _subtrees(bt[0]) + _subtrees(bt[1]) + [bt]
+
+
+def cache_corr(ctx, drv, ncases):
+    """(E) the lazy-getter model (Model/CostCache.lean) against the real `info` dicts: the same sequence
+    of getter calls on a fresh tree must cache the same fields with the same values; and the loop body
+    of remove_ind on cached entries must produce the entries of the real tree after remove_ind_."""
+    for _ in range(ncases):
+        rng = ctx.rng
+        net = gen.rand_net(rng, nmin=2, nmax=6, max_inds=7, dims=(1, 2, 3),
+                           kinds=("bond", "hyper", "dangling", "out1", "outk", "all", "repeated", "batch"))
+        tree = gen.real_tree(ctg, net, gen.rand_tree(rng, len(net.inputs)))
+        bt = gen.bt_of_real(tree)
+        subs = _subtrees(bt)
+        us = gen.unsym(net)
+        keyof = [frozenset(gen.tree_leaves(s)) for s in subs]
+        calls = []
+        for _ in range(rng.randint(1, 6)):
+            i = rng.randrange(len(subs))
+            kinds = ["legs", "size"] + (["involved", "flops"] if not isinstance(subs[i], int) else [])
+            calls.append([rng.choice(kinds), i])
+        for k, i in calls:
+            getattr(tree, "get_" + k)(keyof[i])
+        real = []
+        for s, key in zip(subs, keyof):
+            info = tree.info[key]
+            row = {"p": gen.tree_leaves(s)}
+            for f in ("legs", "involved"):
+                row[f] = sorted([us[a], int(b)] for a, b in info[f].items()) if f in info else None
+            for f in ("size", "flops"):
+                row[f] = int(info[f]) if f in info else None
+            real.append(row)
+        r = drv.call("c04.cache", net=net.json(), rm=[], tree=bt, calls=calls)
+        ctx.count("cache_getter_sequences")
+        ctx.case({"getter_calls": calls, "net": net.json(), "tree": bt}, nontrivial=len(calls) >= 2, sample=False)
+        if "error" in r:
+            ctx.corr_broken("driver error " + r["error"], None)
+            continue
+        model = []
+        for row in r["info"]:
+            model.append({"p": row["p"], "legs": None if row["legs"] is None else sorted(row["legs"]),
+                          "involved": None if row["involved"] is None else sorted(row["involved"]),
+                          "size": row["size"], "flops": row["flops"]})
+        if model != real:
+            ctx.corr_broken("lazy getters: model and real tree cache different fields/values",
+                            {"net": net.json(), "tree": bt, "calls": calls})
+            continue
+        # remove_ind on cached entries
+        inds = net.indices()
+        ix = rng.choice(inds)
+        t2 = gen.real_tree(ctg, net, bt)
+        t2.remove_ind_(gen.sym(ix))
+        real2 = {}
+        for p in t2.children:
+            info = t2.info[p]
+            real2[tuple(sorted(p))] = {"legs": sorted([us[a], int(b)] for a, b in info["legs"].items()),
+                                       "involved": sorted([us[a], int(b)] for a, b in info["involved"].items()),
+                                       "size": int(info["size"]), "flops": int(info["flops"])}
+        r2 = drv.call("c04.remove_cached", net=net.json(), rm=[], ix=ix, tree=gen.bt_of_real(t2))
+        ctx.count("cache_remove_ind")
+        if "error" in r2:
+            ctx.corr_broken("driver error " + r2["error"], None)
+            continue
+        model2 = {tuple(sorted(row["p"])): {"legs": sorted(row["legs"]), "involved": sorted(row["involved"]),
+                                            "size": row["size"], "flops": row["flops"]} for row in r2["nodes"]}
+        if model2 != real2:
+            ctx.corr_broken("remove_ind on cached entries: model and real info differ",
+                            {"net": net.json(), "tree": bt, "ix": ix})
+
+
 def run(ctx, drv):
     replay_corpus(ctx, drv)
+    cache_corr(ctx, drv, 200 if ctx.tier == "quick" else 3000)
     maxcounter_corr(ctx, drv, 300 if ctx.tier == "quick" else 3000)
     ncases = 500 if ctx.tier == "quick" else 8000
     for _ in range(ncases):
